@@ -19,6 +19,8 @@ struct Meta {
     /// rendezvous model in use (capacity 0 created inside a simulation)
     rendezvous: bool,
     waiting_receivers: AtomicUsize,
+    /// live Receiver handles (a rendezvous send to nobody is `Disconnected`, not `Full`)
+    receivers: AtomicUsize,
 }
 
 pub struct Sender<T> {
@@ -54,7 +56,7 @@ fn new_pair<T>(cap: Option<usize>) -> (Sender<T>, Receiver<T>) {
         Some(0) if rendezvous => crossbeam_channel::bounded(1),
         Some(n) => crossbeam_channel::bounded(n),
     };
-    let meta = Arc::new(Meta { id: AtomicU64::new(0), cap, rendezvous, waiting_receivers: AtomicUsize::new(0) });
+    let meta = Arc::new(Meta { id: AtomicU64::new(0), cap, rendezvous, waiting_receivers: AtomicUsize::new(0), receivers: AtomicUsize::new(1) });
     (Sender { inner: Some(tx), meta: meta.clone() }, Receiver { inner: Some(rx), meta })
 }
 
@@ -88,7 +90,7 @@ impl<T: 'static> Sender<T> {
         let res = self.meta.res();
         kernel::yield_now_with(|| format!("chan#{res}.try_send"), &[0x50, res]);
         let desc = if kernel::in_sim() { describe(&msg) } else { String::new() };
-        if self.meta.rendezvous && self.meta.waiting_receivers.load(Ordering::SeqCst) <= self.tx().len() {
+        if self.meta.rendezvous && self.meta.receivers.load(Ordering::SeqCst) > 0 && self.meta.waiting_receivers.load(Ordering::SeqCst) <= self.tx().len() {
             log(&self.meta, "try_send", false, self.tx().len(), desc);
             return Err(TrySendError::Full(msg));
         }
@@ -99,6 +101,7 @@ impl<T: 'static> Sender<T> {
             }
         }
         log(&self.meta, "try_send", r.is_ok(), self.tx().len(), desc);
+        kernel::post_effect();
         r
     }
 
@@ -112,12 +115,13 @@ impl<T: 'static> Sender<T> {
         let mut msg = msg;
         loop {
             k.yield_point(me, || format!("chan#{res}.send"), &[0x51, res]);
-            let blocked_rdv = self.meta.rendezvous && self.meta.waiting_receivers.load(Ordering::SeqCst) <= self.tx().len();
+            let blocked_rdv = self.meta.rendezvous && self.meta.receivers.load(Ordering::SeqCst) > 0 && self.meta.waiting_receivers.load(Ordering::SeqCst) <= self.tx().len();
             if !blocked_rdv {
                 match self.tx().try_send(msg) {
                     Ok(()) => {
                         k.wake(res);
                         log(&self.meta, "send", true, self.tx().len(), desc);
+                        kernel::post_effect();
                         return Ok(());
                     }
                     Err(TrySendError::Disconnected(m)) => {
@@ -144,7 +148,7 @@ impl<T: 'static> Sender<T> {
         let mut msg = msg;
         loop {
             k.yield_point(me, || format!("chan#{res}.send_timeout"), &[0x52, res]);
-            let blocked_rdv = self.meta.rendezvous && self.meta.waiting_receivers.load(Ordering::SeqCst) <= self.tx().len();
+            let blocked_rdv = self.meta.rendezvous && self.meta.receivers.load(Ordering::SeqCst) > 0 && self.meta.waiting_receivers.load(Ordering::SeqCst) <= self.tx().len();
             if !blocked_rdv {
                 match self.tx().try_send(msg) {
                     Ok(()) => {
@@ -205,6 +209,9 @@ impl<T: 'static> Receiver<T> {
                 log(&self.meta, "recv", true, self.rx().len(), describe(v));
             }
         }
+        if r.is_ok() {
+            kernel::post_effect();
+        }
         r
     }
 
@@ -218,6 +225,7 @@ impl<T: 'static> Receiver<T> {
                 Ok(v) => {
                     k.wake(res);
                     log(&self.meta, "recv", true, self.rx().len(), describe(&v));
+                    kernel::post_effect();
                     return Ok(v);
                 }
                 Err(TryRecvError::Disconnected) => {
@@ -348,6 +356,7 @@ impl<T> Clone for Sender<T> {
 
 impl<T> Clone for Receiver<T> {
     fn clone(&self) -> Self {
+        self.meta.receivers.fetch_add(1, Ordering::SeqCst);
         Receiver { inner: self.inner.clone(), meta: self.meta.clone() }
     }
 }
@@ -364,9 +373,7 @@ impl<T> Drop for Sender<T> {
             // channel): a scheduling point AFTER the effect, so that whatever the dropping thread
             // does next (e.g. release further fields of the same struct) can come after the
             // receiver's reaction, as it can on real threads
-            if !std::thread::panicking() {
-                kernel::yield_now_with(|| format!("chan#{id}.sender-dropped"), &[0x5D, id]);
-            }
+            kernel::yield_now_with(|| format!("chan#{id}.sender-dropped"), &[0x5D, id]);
         }
     }
 }
@@ -374,11 +381,15 @@ impl<T> Drop for Sender<T> {
 impl<T> Drop for Receiver<T> {
     fn drop(&mut self) {
         self.inner.take();
+        self.meta.receivers.fetch_sub(1, Ordering::SeqCst);
         if let Some((k, _)) = kernel::current() {
             let id = self.meta.id.load(Ordering::Relaxed);
             if id != 0 {
                 k.wake(id);
             }
+            // the last receiver disconnects the channel (and discards what is queued): visible
+            // to the senders, so a scheduling point after the effect
+            kernel::yield_now_with(|| format!("chan#{id}.receiver-dropped"), &[0x5E, id]);
         }
     }
 }
